@@ -23,6 +23,10 @@ pub struct Case {
     pub read_cap: u16,
     pub read_yield: bool,
     pub eof_after: bool,
+    /// variation of the connection prologue (see `connect_and_run_v`), e.g. a Context whose earlier
+    /// connection died with input still buffered
+    #[serde(default)]
+    pub prologue: u8,
 }
 
 pub struct C03;
@@ -50,7 +54,7 @@ fn scenario(c: &Case, plan: ChunkPlan, settle_between: bool) -> Scenario {
     if c.eof_after {
         ev.push(Ev::Terminate(Cause::Eof));
     }
-    Scenario { receive_max: None, max_packet_size: None, id_offset: 0, prologue: 0, events: ev }
+    Scenario { receive_max: None, max_packet_size: None, id_offset: 0, prologue: c.prologue & 127, events: ev }
 }
 
 fn item() -> BoxedStrategy<Inbound> {
@@ -78,7 +82,7 @@ impl Property for C03 {
     type Case = Case;
 
     fn strategy(tier: Tier) -> BoxedStrategy<Case> {
-        (
+        let s = (
             (1u8..4, 0u8..3, 0u8..4, 0u8..3),
             vec(item(), 1..tier.pick(12, 24)),
             chunk_plan(),
@@ -98,6 +102,13 @@ impl Property for C03 {
                 read_cap,
                 read_yield,
                 eof_after,
+                prologue: 0,
+            })
+            .boxed();
+        (s, super::common::prologue_variant())
+            .prop_map(|(mut c, p)| {
+                c.prologue = p & 127;
+                c
             })
             .boxed()
     }
@@ -128,6 +139,7 @@ impl Property for C03 {
             read_cap: 0,
             read_yield: false,
             eof_after: false,
+            prologue: 0,
         };
         // PUBACK PUBREC(short) + PUBLISH qos1 to a stream (~22 bytes)
         let s2 = Case {
@@ -144,6 +156,7 @@ impl Property for C03 {
             read_cap: 0,
             read_yield: false,
             eof_after: true,
+            prologue: 0,
         };
         let bits1 = tier.pick(9, 9); // 10 bytes
         let bits2: u32 = tier.pick(14, 20);
@@ -192,6 +205,7 @@ impl Property for C03 {
                     read_cap: 0,
                     read_yield: false,
                     eof_after: true,
+                    prologue: 0,
                 });
             }
         }
@@ -218,6 +232,7 @@ impl Property for C03 {
                         read_cap: 0,
                         read_yield: false,
                         eof_after: true,
+                        prologue: 0,
                     });
                 }
             }
